@@ -725,8 +725,72 @@ def summarize(case):
     return _cfg(case) | {"frames": [[[None if p is None else p for p in an] for an in fr] for fr in case["frames"]][:2]}
 
 
+# ----------------------------------------------------------------------------------
+# part: huge frames ("for every image size": a confidence map with more than 2**24 cells per channel, where
+# cell indices no longer fit float32 exactly), through the single-instance inference layer with an identity network
+
+
+def enum_huge(tier):
+    # (H, W, keypoints (x, y) on grid cells): flat indices y*W+x beyond 2**24, odd and even, plus small controls
+    cases = [
+        {"h": 4224, "w": 4096, "pts": [[1501, 4150], [2776, 4201], [7, 3]], "refinement": None},
+        {"h": 4101, "w": 4099, "pts": [[4097, 4100], [1, 4099], [2048, 2048]], "refinement": None},
+    ]
+    if tier != "quick":
+        cases += [
+            {"h": 4100, "w": 4098, "pts": [[4095, 4097], [3, 4096], [4097, 4099]], "refinement": "integral"},
+            {"h": 2050, "w": 8200, "pts": [[8199, 2049], [8191, 2047], [5, 2048]], "refinement": None},
+            {"h": 8200, "w": 2050, "pts": [[2049, 8199], [2047, 8191], [2048, 5]], "refinement": None},
+        ]
+    return cases
+
+
+def evaluate_huge(case):
+    import numpy as np
+    import torch
+    from sleap_nn.inference.single_instance import SingleInstanceInferenceModel
+    from vlib.nets import IdentityNet
+
+    res = Result()
+    H, W, pts = case["h"], case["w"], case["pts"]
+    res.nontrivial = H * W > 2**24
+    res.cls("huge-frame", f"cells={'>2^24' if H * W > 2**24 else '<=2^24'}", f"refine={case['refinement']}")
+    img = torch.zeros((1, 1, len(pts), H, W), dtype=torch.float32)
+    for c, (x, y) in enumerate(pts):
+        # a small symmetric bump whose unique maximum is the keypoint's cell
+        for dy in (-1, 0, 1):
+            for dx in (-1, 0, 1):
+                yy, xx = y + dy, x + dx
+                if 0 <= yy < H and 0 <= xx < W:
+                    img[0, 0, c, yy, xx] = 1.0 if (dx == 0 and dy == 0) else 0.4
+    m = SingleInstanceInferenceModel(
+        torch_model=IdentityNet(stride=1), output_stride=1, peak_threshold=0.2, refinement=case["refinement"], integral_patch_size=5, input_scale=1.0
+    )
+    inputs = {
+        "image": img, "frame_idx": torch.tensor([0], dtype=torch.int32), "video_idx": torch.tensor([0], dtype=torch.int32),
+        "orig_size": torch.tensor([[H, W]], dtype=torch.float32), "eff_scale": torch.tensor([1.0], dtype=torch.float32),
+    }
+    out = runner.guarded(res, "huge-frame", m, inputs)
+    if out is runner.FAILED:
+        return res
+    peaks = np.asarray(out[0]["pred_instance_peaks"][0], dtype=np.float64).reshape(len(pts), 2)
+    for c, (x, y) in enumerate(pts):
+        interior = 2 <= x < W - 2 and 2 <= y < H - 2  # symmetric bump fully inside: refinement must not move it
+        tol = 0.5 if (case["refinement"] is None or interior) else 1.0
+        err = float(np.abs(peaks[c] - np.array([x, y], dtype=np.float64)).max())
+        if not err <= tol:
+            res.fail(
+                "huge-frame:coordinate-error",
+                f"keypoint {c} at cell (x={x}, y={y}) of a {H}x{W} map (flat index {y * W + x}) returned as {peaks[c].tolist()}: error {err:.3g} > {tol} (half an output-stride cell)",
+            )
+    return res
+
+
 def parts(tier):
     return [
+        Part(name="huge-frame", evaluate=evaluate_huge, enumerate=enum_huge, exhaustive={"quick": True, "thorough": True},
+             shards={"quick": 1, "thorough": 1}, min_nontrivial={"quick": 2, "thorough": 2},
+             summarize=lambda c: {k: v for k, v in c.items()}),
         Part(name="predictor", evaluate=evaluate, strategy=lambda: strategy(tier), summarize=summarize,
              budget={"quick": 160, "thorough": 20000}, min_nontrivial={"quick": 20, "thorough": 1000}),
         Part(name="multi-video", evaluate=evaluate_multi, strategy=strategy_multi,
